@@ -85,7 +85,21 @@ type Exec struct {
 }
 
 func (x *Exec) viol(tag, class string, ev Event, detail string) *Viol {
-	return &Viol{Tag: tag, Sig: fmt.Sprintf("%s:%s:after=%s", tag, class, ev.Class()), Detail: detail}
+	// The signature names the last request event (the likely cause) and whether
+	// the clock moved since, not the particular advance rule that exposed it.
+	after := ev.Class()
+	if ev.K == "adv" {
+		after = "start+adv"
+		for i := len(x.Events) - 1; i >= 0; i-- {
+			if x.Events[i].K != "adv" {
+				after = x.Events[i].Class() + "+adv"
+
+				break
+			}
+		}
+	}
+
+	return &Viol{Tag: tag, Sig: fmt.Sprintf("%s:%s:after=%s", tag, class, after), Detail: detail}
 }
 
 func peerNames(ps []string) []*net.UDPAddr {
